@@ -81,7 +81,7 @@ PROPS = {
         "write: case = model converted to the public types. Non-trivial = >=1 cue and >=1 rendering/styling feature (labels); distinct = hash of the rendered bytes (read) or of the model (write).",
         ["N1-N3 of DESIGN.md: adjacent same-style runs are one run, no Unicode white space at line edges, no line terminators or '-->' inside text",
          "the independent SubRip decoder in c01_indep_test.go (own line splitter, timing grammar, tag scanner, single-pass entity table) is correct for the writer's dialect"],
-        shards=(4, 16), technique="model-based property testing: ground-truth model x rendering -> reader compared with the model; writer output decoded by the library reader and by an independent SubRip decoder (round trip + differential)",
+        shards=(4, 16), cli=True, technique="model-based property testing: ground-truth model x rendering -> reader compared with the model; writer output decoded by the library reader and by an independent SubRip decoder (round trip + differential); the command-line tool converting a generated document vs. the same conversion through the library (subprocess, byte-identical output or common failure)",
         text="The expected parse result is known by construction (the harness renders the bytes itself), so reader fidelity is decided against ground truth rather than against the implementation; writer fidelity is decided by two decoders, one of them independent.",
         note="Trusted: the renderer and the independent decoder in the harness, rapid.",
         design="5/C01"),
@@ -93,7 +93,7 @@ PROPS = {
         ["N1-N3 of DESIGN.md; cue text / comment / CSS lines do not begin with NOTE, STYLE, 'Region: ', X-TIMESTAMP-MAP and contain no '-->'; one voice per line, voice tag first; numeric identifiers; an inline timestamp is written directly before the text it marks",
          "STYLE blocks coming from distinct style definitions may be written in any block order (C19 decides determinism)",
          "the independent WebVTT decoder in c02_indep_test.go implements the library's documented dialect (old-style 'Region:' lines)"],
-        shards=(4, 16), technique="model-based property testing: ground-truth model x rendering -> reader compared with the model; writer output decoded by the library reader and by an independent WebVTT decoder that also checks region-definition order",
+        shards=(4, 16), cli=True, technique="model-based property testing: ground-truth model x rendering -> reader compared with the model; writer output decoded by the library reader and by an independent WebVTT decoder that also checks region-definition order; the command-line tool converting a generated document vs. the same conversion through the library (subprocess, byte-identical output or common failure)",
         text="Reader fidelity is decided against a ground truth known by construction; writer fidelity by two decoders, the independent one rejecting mis-nested tags, non-numeric identifiers and region references that precede their definition.",
         note="Trusted: renderer and independent decoder in the harness, rapid.",
         design="5/C02"),
@@ -105,7 +105,7 @@ PROPS = {
         ["N1, N3 of DESIGN.md; no white-space-only character data between two spans of a line, anonymous text does not start a source line, no raw newline inside character data; integer frame and tick counts in Nf / Nt",
          "tolerance for every boundary: |got - exact| < 1 ns",
          "the independent decoder is a raw encoding/xml token walk (allowed by the property) with its own time evaluator and br/span walker"],
-        shards=(4, 16), technique="model-based property testing with exact rational time semantics (math/big): ground-truth model x rendering -> reader; writer output decoded by the library reader and an independent encoding/xml token walker",
+        shards=(4, 16), cli=True, technique="model-based property testing with exact rational time semantics (math/big): ground-truth model x rendering -> reader; writer output decoded by the library reader and an independent encoding/xml token walker; the command-line tool converting a generated document vs. the same conversion through the library (subprocess, byte-identical output or common failure)",
         text="Time expressions are evaluated exactly by the harness and compared with the reader to < 1 ns; structure (lines, runs, references by identity with the map entries, inheritance links of every child) against ground truth; writer fidelity by two decoders.",
         note="Trusted: renderer, rational evaluator and token-walk decoder in the harness; encoding/xml as XML parser; rapid.",
         design="5/C03", exhaustive_note=True),
@@ -117,7 +117,7 @@ PROPS = {
         ["run text contains no braces and no \\N / \\n sequences; no white space at line edges; every override block is followed by text; Name/Effect/Style cells contain no comma; Style rows carry no blanks after commas (as the specification writes them)",
          "N4: booleans compare by effective value (absent = false); N5: floats on the 1/1000 grid",
          "the independent Format-driven decoder treats an empty cell as 'absent' and any non-zero boolean as true"],
-        shards=(4, 16), technique="model-based property testing: ground-truth model x rendering -> reader; writer output decoded by the library reader and an independent Format-driven decoder; write/read/write byte idempotence",
+        shards=(4, 16), cli=True, technique="model-based property testing: ground-truth model x rendering -> reader; writer output decoded by the library reader and an independent Format-driven decoder; write/read/write byte idempotence; the command-line tool converting a generated document vs. the same conversion through the library (subprocess, byte-identical output or common failure)",
         text="Every style attribute is taken from the column its Format line assigns under generated column permutations; the writer is checked by two decoders and by the byte-level idempotence law.",
         note="Trusted: renderer and independent decoder in the harness, rapid.",
         design="5/C04"),
@@ -129,7 +129,7 @@ PROPS = {
          "boundaries: |got - exact| < 1 ns where exact = (h,m,s + f/rate) - programme start, in math/big",
          "written cue instants lie inside their frame (exact frame instant rounded up to the ns); the library's documented defaults apply when the list carries no STL metadata",
          "known findings (known_findings.json): '$' written as 0x24; text under a teletext display standard is written without start box - for those two classes exactly the affected comparison is skipped / the character is not generated, and counted"],
-        shards=(4, 16), technique="model-based property testing with an independent Tech 3264 encoder/decoder (own GSI/TTI layout, own ISO 6937 table, exact rational timecodes); round trip, differential decoding and read-write timecode invariance",
+        shards=(4, 16), cli=True, technique="model-based property testing with an independent Tech 3264 encoder/decoder (own GSI/TTI layout, own ISO 6937 table, exact rational timecodes); round trip, differential decoding and read-write timecode invariance; the command-line tool converting a generated document vs. the same conversion through the library (subprocess, byte-identical output or common failure)",
         text="Files are encoded by the harness from a ground-truth model, so reader fidelity (metadata, timecodes to < 1 ns, rows, runs, styles, diacritic composition) is decided against ground truth; writer output is decoded by the library and by the harness's own decoder; the character table and the frame-number domain are enumerated completely.",
         note="Trusted: the harness's Tech 3264 field table and ISO 6937 table (typed from the standard), x/text NFC, rapid.",
         design="5/C05", exhaustive_note=True),
